@@ -158,21 +158,21 @@ theorem eval_dynCall (tr m : String) (t : Ty) (recv : Expr) (args : List Expr) :
   split <;> simp_all
   rfl
 
-theorem evalList_nil : evalList (n + 1) P ρ w [] = .ok [] w := by rw [evalList]
-theorem evalList_cons (e : Expr) (es : List Expr) :
+theorem evalList_nil_at : evalList (n + 1) P ρ w [] = .ok [] w := by rw [evalList]
+theorem evalList_cons_at (e : Expr) (es : List Expr) :
     evalList (n + 1) P ρ w (e :: es) = (eval n P ρ w e).andThen (fun v w =>
       (evalList n P ρ w es).andThen (fun vs w => .ok (v :: vs) w)) := by
   rw [evalList]; cases eval n P ρ w e with
   | fail f w1 => rfl
   | ok a w1 => simp only [Res.andThen_ok]; cases evalList n P ρ w1 es <;> rfl
 
-theorem evalArms_nil (v : Val) (d : Option Expr) :
+theorem evalArms_nil_at (v : Val) (d : Option Expr) :
     evalArms (n + 1) P ρ w v [] d =
       match d with
       | some d => eval n P ρ w d
       | none => .fail (.stuck "no arm selected and no default") w := by
   cases d <;> rw [evalArms]
-theorem evalArms_cons (v : Val) (lhs body : Expr) (rest : List Arm) (d : Option Expr) :
+theorem evalArms_cons_at (v : Val) (lhs body : Expr) (rest : List Arm) (d : Option Expr) :
     evalArms (n + 1) P ρ w v (.mk lhs body :: rest) d =
       if armMatches lhs v then eval n P ρ w body else evalArms n P ρ w v rest d := by
   rw [evalArms]
